@@ -68,7 +68,8 @@ def main():
     if a.keep and ok:
         os.makedirs(a.keep, exist_ok=True)
         for f in ('patch.diff', 'demo.py'):
-            shutil.copy(os.path.join(d, f), os.path.join(a.keep, f))
+            if os.path.abspath(os.path.join(d, f)) != os.path.abspath(os.path.join(a.keep, f)):
+                shutil.copy(os.path.join(d, f), os.path.join(a.keep, f))
         meta['verified'] = res
         meta['what_was_run'] = 'tools/seedtest.py: demo on clean tree (exit 0), git apply, unit tests, demo on patched tree (non-zero), checks %s tier %s against the patched worktree' % (checks, a.tier)
         json.dump(meta, open(os.path.join(a.keep, 'meta.json'), 'w'), indent=1)
